@@ -813,3 +813,359 @@ models.install_guards(NodeKernel)
 
 KERNELS = [NodeEvaluateImpl, ReadyToEvaluate, ActivateInputSlots, DeactivateInputSlots, NodeStartImpl, NodeStopImpl,
            ScheduleNodeFromStorage]
+
+
+# ------------------------------------------------------------------ NodeBuilder::with_passive_inputs (the passive(...) marker)
+#
+# The active-input list is kept as a set of slots (it is an ascending duplicate-free vector: either the schema's canonical
+# list or the identity list 0..n-1 built here).  std::erase(vector, value) removes the value when present and nothing else.
+
+
+class SlotSet(Obj):
+    """std::vector<size_t> holding an ascending duplicate-free list of slots: membership array"""
+    cls = "std::vector<size_t>(slots)"
+    custom = True
+
+    def __init__(self, ctx, name, mem=None):
+        Obj.__init__(self, name=name)
+        ctx.store[(self.oid, "mem")] = mem if mem is not None else z3.K(I_, z3.BoolVal(False))
+
+    def mem(self, ctx):
+        return ctx.store[(self.oid, "mem")]
+
+    def m_empty(self, I, args, n):
+        return z3.ForAll([qs], z3.Not(self.mem(I.ctx)[qs]))
+
+    def m_resize(self, I, args, n):
+        # resize(n) of an empty list followed by active[slot] = slot for every slot: positions hold a value only once assigned
+        I.ctx.write(Loc((self.oid, "mem")), z3.K(I_, z3.BoolVal(False)))
+        return VOID
+
+    def op(self, I, op, rest, n, a0):
+        if op == "[]":
+            return SlotCell(self, I.ctx.rv(rest[0]))
+        if op == "=":
+            o = I.ctx.rv(rest[0])
+            if isinstance(o, SlotSet):
+                I.ctx.write(Loc((self.oid, "mem")), o.mem(I.ctx))
+                return self
+        return NotImplemented
+
+    def m_begin(self, I, args, n):
+        return ("slots_begin", self)
+
+    def m_end(self, I, args, n):
+        return SlotIter(self, None)
+
+    def m_erase(self, I, args, n):
+        it = I.ctx.rv(args[0])
+        if not isinstance(it, SlotIter) or it.elem is None:
+            raise Gap("erase of a non-dereferenceable slot iterator")
+        I.ctx.write(Loc((self.oid, "mem")), z3.Store(self.mem(I.ctx), it.elem, False))
+        return it
+
+
+class SlotCell:
+    def __init__(self, s, pos):
+        self.s, self.pos = s, pos
+
+    def op(self, I, op, rest, n, a0):
+        if op == "=":
+            v = I.ctx.rv(rest[0])
+            I.ctx.oblige("model.identity-fill:active[slot]=slot", v == self.pos, kind="model")
+            I.ctx.write(Loc((self.s.oid, "mem")), z3.Store(self.s.mem(I.ctx), self.pos, True))
+            return self
+        return NotImplemented
+
+    def assign(self, I, v):
+        return self.op(I, "=", [v], None, None)
+
+
+class SlotIter:
+    def __init__(self, s, elem, is_end=None):
+        self.s, self.elem = s, elem
+        self.is_end = z3.BoolVal(elem is None) if is_end is None else is_end
+
+    def compare(self, I, op, other):
+        if not isinstance(other, SlotIter):
+            raise Gap("slot iterator compared with %r" % (other,))
+        if other.elem is None:
+            e = self.is_end
+        elif self.elem is None:
+            e = other.is_end
+        else:
+            raise Gap("comparison of two interior slot iterators")
+        return e if op == "==" else z3.Not(e)
+
+
+class WithPassiveInputs(Kernel):
+    tu = TU
+    scope = {"lo": 0, "hi": 3}
+    name = "node.cpp:NodeBuilder::with_passive_inputs"
+    fn_name = "with_passive_inputs"
+    filter = "NodeBuilder::with_passive_inputs"
+    property_ids = ("C03",)
+    title = "with_passive_inputs: exactly the marked slots leave the active and structural lists; nothing else does"
+
+    def setup(self, I):
+        ctx = I.ctx
+        self.n_slots = z3.Int("n_marked")
+        self.marked = z3.Array("marked_slot", I_, I_)
+        self.input_count = z3.Int("input_count")
+        self.has_active = z3.Bool("schema_has_active_inputs")
+        self.active0 = z3.Array("schema_active0", I_, B_)
+        self.struct0 = z3.Array("structural0", I_, B_)
+        self.type_present, self.native = z3.Bool("type_present"), z3.Bool("native_ops")
+        ctx.assume(z3.And(self.n_slots >= 0, self.input_count >= 0))
+        ctx.assume(z3.ForAll([qs], z3.And(z3.Implies(self.active0[qs], z3.And(qs >= 0, qs < self.input_count)),
+                                          z3.Implies(self.struct0[qs], z3.And(qs >= 0, qs < self.input_count)),
+                                          self.marked[qs] >= 0)))
+        k = self
+        th = Obj("NodeBuilder", "this_builder")
+        self.th = th
+        ty = Obj("NodeTypeRef", "type_")
+        ty.truth = lambda I_2: k.type_present
+        ops = Obj("NodeOps", "node_ops")
+        ctx.store[(ops.oid, "start_impl")] = FnCmp(self.native)
+        ctx.store[(ops.oid, "stop_impl")] = FnCmp(self.native)
+        origin = Obj("NodeRuntimeContext", "origin")
+        ctx.store[(origin.oid, "plan")] = Ptr(Wild3(name="plan"), z3.Bool("origin_plan_null"))
+        ctx.store[(origin.oid, "callbacks")] = Wild3(name="callbacks")
+        ctx.store[(origin.oid, "runtime_type_id")] = z3.Int("runtime_type_id")
+        ctx.store[(ops.oid, "context")] = Ptr(origin, z3.Not(self.native))
+        ty.m_ops_ref = lambda I_2, a, n: ops
+        self.schema_obj = None
+        ty.m_schema = lambda I_2, a, n: Ptr(SchemaSrc(k))
+        ty.m_record = lambda I_2, a, n: Ptr(Wild3(name="record"))
+        ctx.store[(th.oid, "type_")] = ty
+        for nm in ("input_endpoint_", "output_endpoint_", "output_value_storage_", "label_", "scalars_"):
+            ctx.store[(th.oid, nm)] = Wild3(name=nm)
+        g = Obj("ghost", "pg")
+        self.g = g
+        ctx.store[(g.oid, "made_type")] = z3.IntVal(0)
+        self.final_active = None
+        return th, {"slots": Vec(ctx, "slots", length=self.n_slots, data=self.marked)}
+
+    def function_handler(self, name, node, callee_node):
+        k = self
+        if name == "erase":
+            def er(I, args, n):
+                v, val = I.ctx.rv(args[0]), I.ctx.rv(args[1])
+                if not isinstance(v, SlotSet):
+                    raise Gap("std::erase on something that is not a slot list")
+                I.ctx.write(Loc((v.oid, "mem")), z3.Store(v.mem(I.ctx), val, False))
+                return I.ctx.fresh("erased_count")
+            return er
+        if name == "lower_bound":
+            def lb(I, args, n):
+                ctx = I.ctx
+                b = ctx.rv(args[0])
+                s = b[1] if isinstance(b, tuple) else None
+                if not isinstance(s, SlotSet):
+                    raise Gap("lower_bound on something that is not a slot list")
+                val = ctx.rv(args[2])
+                mem = s.mem(ctx)
+                e, none = ctx.fresh("lower_bound_elem"), ctx.fresh("lower_bound_is_end", "bool")
+                ctx.assume(z3.If(none, z3.ForAll([qs], z3.Implies(mem[qs], qs < val)),
+                                 z3.And(mem[e], e >= val, z3.ForAll([qs], z3.Implies(z3.And(mem[qs], qs >= val), e <= qs)))))
+                return SlotIter(s, e, none)
+            return lb
+        if name == "move":
+            return lambda I, a, n: I.ctx.rv(a[0])
+        if name == "node_storage_plan_for":
+            return lambda I, a, n: Wild3(name="plan")
+        if name == "node_runtime_registry":
+            reg = Wild3(name="registry")
+
+            def mk(I, a, n):
+                sch = I.ctx.rv(a[0])
+                I.ctx.write(Loc((k.g.oid, "made_type")), I.ctx.store[(k.g.oid, "made_type")] + 1)
+                k.final_schema = sch
+                return Wild3(name="new_type")
+            reg.m_make_type = mk
+            return lambda I, a, n: reg
+        return Kernel.function_handler(self, name, node, callee_node)
+
+    def ctor_handler(self, qt, node):
+        k = self
+        if qt.endswith("NodeTypeMetaData"):
+            def mk(I, args, n):
+                a = [I.ctx.rv(x) for x in args]
+                if a and isinstance(a[0], SchemaCopy):
+                    return a[0]
+                return SchemaCopy(I.ctx, k)
+            return mk
+        if "iterator" in qt:
+            return lambda I, args, n: I.ctx.rv(args[0])
+        if "vector<" in qt and ("size_t" in qt or "unsigned long" in qt) and "NodeStorageField" not in qt:
+            def mkv(I, args, n):
+                a = [I.ctx.rv(x) for x in args]
+                if a and isinstance(a[0], SlotSet):
+                    return a[0]
+                return SlotSet(I.ctx, "active")
+            return mkv
+        if qt.endswith("NodeBuilder"):
+            def mkb(I, args, n):
+                a = [I.ctx.rv(x) for x in args]
+                if len(a) == 1 and isinstance(a[0], Obj) and a[0].cls == "NodeBuilder":
+                    return a[0]
+                o = Obj("NodeBuilder", "result")
+                o.is_new = True
+                for nm in ("output_endpoint_", "output_value_storage_", "label_", "scalars_"):
+                    I.ctx.store[(o.oid, nm)] = Wild3(name=nm)
+                return o
+            return mkb
+        if "NodeStorageField" in qt or qt.endswith("NodeTypeRef"):
+            return lambda I, args, n: Wild3(name="fields")
+        return Kernel.ctor_handler(self, qt, node)
+
+    def enum_const(self, I, ref):
+        if ref.get("name") == "TSB":
+            return z3.IntVal(6)
+        raise Gap("enum constant %s" % ref.get("name"))
+
+    def global_var(self, I, ref, node):
+        if ref.get("name") == "node_prepared_inputs_field":
+            return z3.IntVal(self.string_id("node_prepared_inputs_field"))
+        return None
+
+    def method_handler(self, obj, name, node):
+        if isinstance(obj, Wild3):
+            if hasattr(obj, "m_" + name):
+                return Kernel.method_handler(self, obj, name, node)
+            if name in ("find_component",):
+                return lambda I, o, a, n: Ptr(Wild3(name="component"), I.ctx.fresh("component_null", "bool"))
+            return lambda I, o, a, n: Wild3(name=name)
+        return Kernel.method_handler(self, obj, name, node)
+
+    def inv_fill(self, I, ctx):
+        s = self.local(I, "slot")
+        act = self.local_obj(I, "active")
+        yield "identity-list-so-far", z3.And(s >= 0, s <= self.input_count, z3.ForAll([qs], act.mem(ctx)[qs] == z3.And(qs >= 0, qs < s)))
+
+    def frame_fill(self, I, ctx):
+        return [Loc((self.local_obj(I, "active").oid, "mem"))]
+
+    def start_active(self):
+        return lambda q: z3.If(self.has_active, self.active0[q], z3.And(q >= 0, q < self.input_count))
+
+    def in_marked(self, q, upto):
+        return z3.Exists([qk], z3.And(qk >= 0, qk < upto, self.marked[qk] == q))
+
+    def inv_marks(self, I, ctx):
+        pos = self.range_pos(I)
+        act = self.local_obj(I, "active")
+        sc = self.local_obj(I, "schema")
+        st = ctx.store[(sc.oid, "structural_inputs")]
+        a0 = self.start_active()
+        yield "position-range", z3.And(pos >= 0, pos <= self.n_slots)
+        yield "marked-slots-so-far-in-range", z3.ForAll([qk], z3.Implies(z3.And(qk >= 0, qk < pos), self.marked[qk] < self.input_count))
+        yield "exactly-the-marked-slots-so-far-removed[C03]", z3.ForAll([qs], z3.And(
+            act.mem(ctx)[qs] == z3.And(a0(qs), z3.Not(self.in_marked(qs, pos))),
+            st.mem(ctx)[qs] == z3.And(self.struct0[qs], z3.Not(self.in_marked(qs, pos)))))
+
+    def frame_marks(self, I, ctx):
+        sc = self.local_obj(I, "schema")
+        return [Loc((self.local_obj(I, "active").oid, "mem")), Loc((ctx.store[(sc.oid, "structural_inputs")].oid, "mem"))]
+
+    @property
+    def loops(self):
+        return {0: LoopSpec(self.inv_fill, self.frame_fill), 1: LoopSpec(self.inv_marks, self.frame_marks)}
+
+    def post(self, I, ret):
+        ctx = I.ctx
+        a0 = self.start_active()
+        if self.n_slots is None:
+            return
+        same = z3.BoolVal(ret is self.th)
+        made = ctx.store[(self.g.oid, "made_type")]
+        if ret is self.th:
+            ctx.oblige("ensures.no-marker=>the-same-builder", z3.And(self.n_slots == 0, made == 0), kind="post-normal")
+            return
+        sch = getattr(self, "final_schema", None)
+        if not isinstance(sch, SchemaCopy):
+            raise Gap("with_passive_inputs: the new type was not made from the adjusted schema")
+        fa = ctx.store[(sch.oid, "active_inputs")]
+        st = ctx.store[(sch.oid, "structural_inputs")]
+        if not isinstance(fa, SlotSet):
+            raise Gap("active_inputs of the new schema is not the adjusted list")
+        ctx.oblige("ensures.active'=active-minus-exactly-the-marked-slots;structural'=structural-minus-the-marked-slots[C03 a passive "
+                   "input does not trigger evaluation; every other input keeps triggering it]", z3.And(made == 1, z3.ForAll([qs], z3.And(
+                       fa.mem(ctx)[qs] == z3.And(a0(qs), z3.Not(self.in_marked(qs, self.n_slots))),
+                       st.mem(ctx)[qs] == z3.And(self.struct0[qs], z3.Not(self.in_marked(qs, self.n_slots)))))), kind="post-normal")
+
+    def post_exc(self, I, exc):
+        ctx = I.ctx
+        ctx.oblige("raises.only-as-specified", z3.BoolVal(exc.cls in ("std::logic_error", "std::invalid_argument", "std::out_of_range")),
+                   kind="post-exceptional")
+
+
+class FnCmp:
+    """a function-pointer member compared with the address of the native start/stop implementation"""
+    custom_binop = True
+
+    def __init__(self, native):
+        self.native = native
+
+    def binop(self, I, op, other):
+        if op == "==":
+            return self.native
+        if op == "!=":
+            return z3.Not(self.native)
+        raise Gap("function pointer %s" % op)
+
+    rbinop = binop
+
+
+class Wild3(Obj):
+    cls = "wild"
+
+    def member(self, ctx, name, node):
+        return Wild3(name=name)
+
+    def op(self, I, op, rest, n, a0):
+        return self
+
+
+class SchemaSrc(Obj):
+    """*type_.schema(): the node's current schema (copied into the local `schema`)"""
+    cls = "NodeTypeMetaData(source)"
+
+    def __init__(self, k):
+        Obj.__init__(self, name="type_schema")
+        self.k = k
+
+
+class SchemaCopy(Obj):
+    cls = "NodeTypeMetaData"
+
+    def __init__(self, ctx, k):
+        Obj.__init__(self, name="schema")
+        self.k = k
+        insch = Obj("TSValueTypeMetaData", "input_schema")
+        ctx.store[(insch.oid, "kind")] = z3.IntVal(6)           # TSB
+        insch.m_field_count = lambda I_2, a, n: k.input_count
+        ctx.store[(self.oid, "input_schema")] = Ptr(insch, z3.BoolVal(False))
+        ai = ActiveOpt(ctx, k)
+        ctx.store[(self.oid, "active_inputs")] = ai
+        ctx.store[(self.oid, "structural_inputs")] = SlotSet(ctx, "structural_inputs", mem=k.struct0)
+
+
+class ActiveOpt(Obj):
+    cls = "std::optional<std::vector<size_t>>"
+
+    def __init__(self, ctx, k):
+        Obj.__init__(self, name="active_inputs")
+        self.k = k
+        self.content = SlotSet(ctx, "schema_active_inputs", mem=k.active0)
+
+    def m_has_value(self, I, args, n):
+        return self.k.has_active
+
+    def op(self, I, op, rest, n, a0):
+        if op == "*":
+            return self.content
+        return NotImplemented
+
+
+KERNELS += [WithPassiveInputs]
